@@ -507,11 +507,11 @@ func zvC18Check(r *vh.Run, c zvC18Case) bool {
 
 	o := zvC18Run(c, pfxs)
 	sig := func(clause string, extra ...string) map[string]string {
-		kv := append([]string{"clause", clause, "family", zvC18Fams[c.Fam], "addpath", fmt.Sprint(c.AP), "profile", zvC18Profiles[c.Profile]}, extra...)
 		if c.Second != "" {
-			kv = append(kv, "second_set_differs_in", c.Second)
+			// two sets queued together: what matters is the attribute the paths differ in, not the session
+			return vh.Sig(append([]string{"clause", clause, "addpath", fmt.Sprint(c.AP), "second_set_differs_in", c.Second}, extra...)...)
 		}
-		return vh.Sig(kv...)
+		return vh.Sig(append([]string{"clause", clause, "family", zvC18Fams[c.Fam], "addpath", fmt.Sprint(c.AP), "profile", zvC18Profiles[c.Profile]}, extra...)...)
 	}
 	if o.Status != vsched.Completed {
 		r.Violation(sig("run-"+o.Status.String()), c, "case {%s}: execution %s: %.400s", c, o.Status, o.Crash)
@@ -685,7 +685,7 @@ func zvC18Enumerate(thorough bool, visit func(c zvC18Case) bool) {
 	if thorough {
 		profiles = []int{0, 1, 2}
 	}
-	hiA, hiAS, bulkL := 40, 12, 24
+	hiA, hiAS, bulkL := 32, 8, 24
 	if thorough {
 		hiA, hiAS, bulkL = 130, 60, 80
 	}
@@ -815,7 +815,7 @@ func TestVerifC18(t *testing.T) {
 	defer r.Finish()
 	r.Rule("sessions {IPv4 classic, IPv4 multiprotocol, IPv6 multiprotocol} x add-path TX {off,on} x attribute profile {lean iBGP, rich iBGP RR client (MED, ATOMIC_AGGREGATE, AGGREGATOR, 70 communities, 25 large communities, " +
 		"ORIGINATOR_ID, 65 cluster ids, 2 unknown attributes); thorough: lean eBGP with prepend} x flush {End-of-RIB, aggregation ticker} x three regimes: boundary = attribute size (unknown attribute length byte by byte; AS path length ASN by ASN) " +
-		"chosen so that R = 1..40 (thorough 130) bytes remain for NLRI, x every NLRI size class x every count 1..2.2R/size+2; tails = bulk filling a message up to 0..2 prefixes x every size combination of three more prefixes; " +
+		"chosen so that R = 1..32 (thorough 130) bytes remain for NLRI, x every NLRI size class x every count 1..2.2R/size+2; tails = bulk filling a message up to 0..2 prefixes x every size combination of three more prefixes; " +
 		"bulk = small attributes (unknown attribute 0..24/80 bytes, byte by byte) x size classes >= /16 x counts around 1x and 2x capacity and 2.2x capacity; sets = two sets of 1..3 prefixes queued interleaved whose paths differ in exactly one of {unknown attribute value, additional unknown attribute, AGGREGATOR, ATOMIC_AGGREGATE, MED, communities, AS path}, each prefix must carry the attributes of its own set. Oracle on the captured stream only. Non-trivial = cases needing more than one message or able to fill one exactly")
 	r.Require(zvC18Required...)
 	if r.IsReplay() {
